@@ -113,6 +113,7 @@ Obs == [vis |-> sh.vis, hid |-> sh.hid, cnt |-> sh.cnt, orders |-> MapSeq(sh.qma
         tickets |-> sh.tickets, st |-> sh.st, gen |-> sh.gen]
 
 Inv_Emit == (EmitReplays /\ phase = "done") =>
-              PrintT(<<"REPLAY", ToJson([sc |-> sc, sched |-> hist, final |-> Obs, kf |-> SetToSeq(gh.kf)])>>)
+              PrintT(<<"REPLAY", ToJson([sc |-> sc, sched |-> hist, final |-> Obs, kf |-> SetToSeq(gh.kf),
+                                       drainq |-> th[Drainer(sc)].call.q])>>)
 
 =============================================================================
